@@ -9,8 +9,8 @@ TRUSTED = [
     "tools/extractors/c10.py: MIN_HEAP_BYTES / DEFAULT_MAX_HEAP_BYTES / MAX_ALLOC / INITIAL_GC_THRESHOLD from the source text; shape of "
     "ensure_heap_capacity (two checked_add + one comparison) and 'ensure precedes the heap mutation' in every alloc_* of runtime/src/vm/alloc.rs; "
     "size_of AelysArray/AelysVec/AelysString/Value measured by `hx_heaplimit sizes`",
-    "Model/HeapLimit.v is a hand model of the allocating primitives (event order read from arrays.inc, alloc.rs, manual_heap/alloc.rs, "
-    "stdlib/bytes.rs, stdlib/string.rs and of Rust's Vec growth / capacity-overflow rules); tied on every run by hx_heaplimit",
+    "Model/HeapLimit.v is a hand model of the allocating primitives (event order read from arrays.inc, alloc.rs (checked_array_len, "
+    "vec_reserve_checked, check_string_capacity), manual_heap/alloc.rs, stdlib/bytes.rs, stdlib/string.rs); tied on every run by hx_heaplimit",
     "the host allocator is NOT modelled: the model only records the request (EHost n) and a capacity parameter; the tie runs every case in a "
     "child process under RLIMIT_AS = 3 GiB and accepts either prediction for requests between 1.5 and 3 GiB",
     "accounting is compared as a difference against a per-(operation, opt level) constant measured on a case where the operation charges nothing "
@@ -63,6 +63,9 @@ def request_bytes(r):
         return None if n <= 1 else 24 + 16 * n
     if op in ("pad_left", "pad_right"):
         return None if n <= 16 else 24 + n
+    if op == "vec_reserve":
+        # Vec<Int>[1] has length 1 and capacity 1: the exact need for n more elements is n * 8 bytes of growth
+        return None if n <= 0 else 8 * n
     return None
 
 
@@ -104,19 +107,20 @@ def oracle(ctx, r, const, stats):
             ctx.violation(f"granted-over-limit:{fam}", f"request of {req} bytes granted with {used0} in use, limit {r['limit']}", rep)
         if kind == 1 and fits:
             ctx.violation(f"refused-under-limit:{fam}", f"request of {req} bytes refused with {used0} in use, limit {r['limit']}", rep)
-        if kind == 0 and r["delta"] - c != req:
+        if kind == 0 and r["delta"] - c != req and fam != "vec_reserve":     # reserve may grow by amortised doubling
             ctx.violation(f"charge-mismatch:{fam}", f"charged {r['delta'] - c} bytes for a request of {req}", rep)
         # refused, but the host had already been asked for the memory (address space grew by the request)
         if kind == 1 and req >= max(8 * r["limit"], 1 << 27) and r["dpeak_kib"] * 1024 >= req // 2 and fam != "manual_alloc":
             ctx.violation(f"host-alloc-before-check:{fam}", f"refused with OutOfMemory after the host had allocated ~{r['dpeak_kib']} KiB for a request of {req} bytes", rep)
-    # data held beyond the limit without any charge (growth of a vec)
-    if kind == 0 and fam in ("vec_push", "vec_reserve") and r["size"] > 0 and used0 + 8 * r["size"] > r["limit"]:
-        ctx.violation(f"held-over-limit:{fam}", f"a vec of {r['size']} ints ({8 * r['size']} bytes) is held with limit {r['limit']}; charged {r['delta'] - (c or 0)}", rep)
+    # the storage of a vec is accounted as it grows: what is held has been charged
+    if kind == 0 and fam in ("vec_push", "vec_reserve") and r["size"] > 0 and c is not None and r["delta"] - c < 8 * r["size"]:
+        ctx.violation(f"held-unaccounted:{fam}", f"a vec of {r['size']} more ints ({8 * r['size']} bytes) is held but only {r['delta'] - c} bytes were charged (limit {r['limit']})", rep)
     if kind in (1, 2, 3) and c is not None and r["delta"] != c and r["op"] not in LOOPS:
         ctx.violation(f"failed-op-changed-accounting:{fam}", f"delta {r['delta']} after a refused operation, {c} expected", rep)
     if kind == 2 and not (r["op"] == "manual_alloc" and r["size"] == 0):
         ctx.violation(f"unexpected-kind:{fam}", "InvalidAllocationSize", rep)
-    if kind == 3 and not ((r["op"] == "manual_alloc" and r["size"] < 0) or (r["op"] == "bytes_alloc" and (r["size"] <= 0 or r["size"] > (256 << 20)))):
+    if kind == 3 and not ((r["op"] in ("manual_alloc", "vec_reserve", "array_int", "array_float", "array_bool", "array_obj") and r["size"] < 0)
+                          or (r["op"] == "bytes_alloc" and (r["size"] <= 0 or r["size"] > (256 << 20)))):
         ctx.violation(f"unexpected-kind:{fam}", "TypeError", rep)
     # guarded loops (vec literals, closures): Ok or OutOfMemory, and OutOfMemory only near the limit
     if r["op"] in ("vec_new_lit", "closures") and kind == 1 and r["a0"] + r["delta"] + 4096 < r["limit"]:
